@@ -6,6 +6,7 @@ import (
 	"net/url"
 	"os"
 	"path/filepath"
+	"sync"
 )
 
 // settings holds pprof settings.
@@ -140,8 +141,15 @@ func configMenu(fname string, u url.URL) []configMenuEntry {
 	return result
 }
 
+// settingsMu serializes the read-modify-write cycles of editSettings: the web
+// UI serves every request on its own goroutine, and without it concurrent
+// save/delete requests lose each other's updates.
+var settingsMu sync.Mutex
+
 // editSettings edits settings by applying fn to them.
 func editSettings(fname string, fn func(s *settings) error) error {
+	settingsMu.Lock()
+	defer settingsMu.Unlock()
 	settings, err := readSettings(fname)
 	if err != nil {
 		return err
